@@ -130,6 +130,65 @@ def dep_cone(target_v):
     return sorted(x[:-3] + ".v" for x in seen if os.path.exists(os.path.join(COQ, x[:-3] + ".v")))
 
 
+def _vo_module(v):
+    """theories/X.v -> MLA.X, theories/Concrete/Aes.v -> MLA.Concrete.Aes, gen/Src.v -> MLAGen.Src, props/C01.v -> MLAProps.C01"""
+    top, rest = v.split("/", 1)
+    return {"theories": "MLA", "gen": "MLAGen", "props": "MLAProps"}[top] + "." + rest[:-2].replace("/", ".")
+
+
+# coqchk lists the fields of the standard library's sealed module Under_rel as axioms as soon as ANY module is loaded
+# with -admit (they are not listed when everything is checked); nothing else is tolerated in the axiom list
+COQCHK_ADMIT_ARTEFACTS = "Coq.ssr.ssrunder.Under_rel."
+
+
+def coqchk_cone(pid):
+    """coqchk -o on props/<pid>.vo. A module whose .vo is byte-identical (sha256) to one a previous clean coqchk run
+    checked is loaded with -admit instead of being checked again: the cones of the 20 properties share most of the
+    development and a full re-check of each costs ~30 min. The cache is only ever extended after a clean run."""
+    import hashlib, fcntl
+    cache_path = os.path.join(VERIF, ".build", "coqchk_cache.json")
+    cone = dep_cone("props/%s.v" % pid)
+    sha = {}
+    for v in cone:
+        with open(os.path.join(COQ, v[:-2] + ".vo"), "rb") as f:
+            sha[_vo_module(v)] = hashlib.sha256(f.read()).hexdigest()
+    try:
+        with open(cache_path) as f:
+            cache = json.load(f)
+    except (OSError, ValueError):
+        cache = {}
+    admitted = sorted(m for m in sha if cache.get(m) == sha[m] and m != "MLAProps." + pid)
+    cmd = ["coqchk", "-silent", "-o", "-Q", "theories", "MLA", "-Q", "gen", "MLAGen", "-Q", "props", "MLAProps"]
+    for m in admitted:
+        cmd += ["-admit", m]
+    # every module of the cone that is not admitted is named explicitly: -admit covers the dependencies of an admitted
+    # module "unless explicitly required"
+    cmd += sorted(m for m in sha if m not in admitted)
+    r = subprocess.run(cmd, cwd=COQ, capture_output=True, text=True, timeout=6000)
+    txt = r.stdout + r.stderr
+    axioms = []
+    if "* Axioms:" in txt:
+        sect = txt.split("* Axioms:", 1)[1].split("* Constants/Inductives relying on type-in-type", 1)[0]
+        axioms = [l.strip() for l in sect.splitlines() if l.strip() and l.strip() != "<none>"]
+    stray = [a for a in axioms if not (admitted and a.startswith(COQCHK_ADMIT_ARTEFACTS))]
+    clean = (r.returncode == 0 and "* Axioms:" in txt and not stray and "relying on type-in-type: <none>" in txt
+             and "relying on unsafe (co)fixpoints: <none>" in txt and "positivity is assumed: <none>" in txt)
+    if clean:
+        os.makedirs(os.path.dirname(cache_path), exist_ok=True)
+        with open(cache_path + ".lock", "w") as lk:
+            fcntl.flock(lk, fcntl.LOCK_EX)
+            try:
+                with open(cache_path) as f:
+                    cache = json.load(f)
+            except (OSError, ValueError):
+                cache = {}
+            cache.update(sha)
+            with open(cache_path + ".tmp", "w") as f:
+                json.dump(cache, f)
+            os.replace(cache_path + ".tmp", cache_path)
+    return clean, txt, len(sha) - len(admitted), len(admitted)
+
+
 def coq_build(pid, extra=()):
     ensure_makefile()
     targets = ["props/%s.vo" % pid, "theories/Run.vo"] + ["theories/%s.vo" % m for m in extra]
@@ -345,16 +404,14 @@ def main(argv):
     if ok_build and not proof_broken and tier == "thorough":
         t1 = time.time()
         try:
-            r = subprocess.run(["coqchk", "-silent", "-o", "-Q", "theories", "MLA", "-Q", "gen", "MLAGen", "-Q", "props", "MLAProps", "MLAProps." + pid],
-                               cwd=os.path.join(VERIF, "coq"), capture_output=True, text=True, timeout=3000)
-            txt = r.stdout + r.stderr
-            clean = (r.returncode == 0 and "* Axioms: <none>" in txt and "relying on type-in-type: <none>" in txt
-                     and "relying on unsafe (co)fixpoints: <none>" in txt and "positivity is assumed: <none>" in txt)
-            log("coqchk -o MLAProps.%s: %s (%.0fs)" % (pid, "axioms <none>, no type-in-type, no unsafe fixpoints, positivity checked" if clean else "NOT CLEAN", time.time() - t1))
+            clean, txt, n_checked, n_admitted = coqchk_cone(pid)
+            log("coqchk -o MLAProps.%s: %s (%d modules checked now, %d checked earlier on identical .vo files and admitted; %.0fs)" % (
+                pid, "axioms <none>, no type-in-type, no unsafe fixpoints, positivity checked" if clean else "NOT CLEAN", n_checked, n_admitted, time.time() - t1))
             if not clean:
                 proof_broken = "coqchk does not accept props/%s.vo as closed: %s" % (pid, txt[-400:])
             else:
-                trusted.append("coqchk -o (the independent checker) re-checked props/%s.vo and its whole cone in this run: Axioms <none>" % pid)
+                trusted.append("coqchk -o (the independent checker) re-checked props/%s.vo and its whole cone: Axioms <none> (%d modules in this run; %d modules had been "
+                               "re-checked by an earlier coqchk run on byte-identical .vo files - sha256 recorded in .build/coqchk_cache.json - and were loaded with -admit)" % (pid, n_checked, n_admitted))
         except (OSError, subprocess.TimeoutExpired) as e:
             log("coqchk could not be run: %s" % e)
     bad = forbidden_scan()
